@@ -10,7 +10,7 @@ JudgeEv(k, e) ==
          /\ Drift(k, ConformsBatch(e), e.err)
          /\ (~BatchAccepted(e) \/ Emit("STAT", [i |-> k, what |-> "accepted"]))
     [] e.op = "adjust" ->
-         /\ Judge(k, << <<"NoPanic", MonNoPanic(e)>>, <<"AdjInward", MonAInward(e)>>, <<"AdjNoneKeeps", MonANoneKeeps(e)>>,
+         /\ Judge(k, << <<"NoPanic", MonNoPanic(e)>>, <<"AdjInward", MonAInward(e)>>, <<"AdjBand", MonABand(e)>>, <<"AdjNoneKeeps", MonANoneKeeps(e)>>,
                         <<"AdjAccepted", MonAAccepted(e)>> >>)
          /\ Drift(k, ConformsAdjust(e), "adjust")
     [] e.op = "with_prices" ->
